@@ -84,6 +84,8 @@ class Ctx:
                 if k["id"] not in [h["id"] for h in self.known_hits]:
                     self.known_hits.append(k)
                 return False
+        if any(v[0] == signature for v in self.violations):
+            return True          # one replay per distinct signature
         self.violations.append((signature, what, replay, found))
         return True
 
